@@ -20,6 +20,7 @@ class _Fail(Exception):
 
 def drive(ctx, strategy, body, max_examples, name="", max_classes=6, shrink=True, encode=None, stream=0):
     excluded = set(ctx.open_classes())
+    known_open = set(excluded)
     found = []
     rounds = 0
     phases = [Phase.explicit, Phase.generate] + ([Phase.shrink] if shrink else [])
@@ -45,7 +46,8 @@ def drive(ctx, strategy, body, max_examples, name="", max_classes=6, shrink=True
             bad = []
             for cls, what in viols or []:
                 if cls in excluded:
-                    part.excluded_known += 1
+                    if cls in known_open:
+                        part.excluded_known += 1
                 else:
                     bad.append((cls, what))
             if bad:
